@@ -32,6 +32,10 @@ EXTRA = {
     "C19": T("SelectionProofs", "C19_header_first_value C19_later_duplicate_ignored C19_first_date C19_first_token C19_first_authorization "
                                 "C19_last_param_wins C19_last_param_wins_header C19_first_query_value C19_url_before_body qget_qmap_extend "
                                 "C19_selection C19_selection_header C19_selection_query C19_query_values_of_request C19_both_carriers_refused"),
+    "C02": T("SoundnessProofs", "model_creq_is_spec C01_accept_implies_signature")
+           + T("PathProofs", "C09_model_is_spec C09_spelling_insensitive") + T("QueryProofs", "C10_model_is_spec C10_multiset")
+           + T("HeaderProofs", "C11_value_normal_form C11_block_is_spec C11_block_per_name_order C11_block_name_case norm_value_pad norm_value_space_run")
+           + T("IsoProofs", "C16_render_roundtrip"),
     "C03": T("AuthProofs", "C03_terminator C03_status_400 C03_status_403 C03_accept_implies_scope C03_scope_date_is_utc_date C03_arity_is_incomplete "
                            "C03_mismatch_is_403_no_lookup C03_arity_is_incomplete_validate C03_mismatch_is_403_no_lookup_validate C03_scope_decision")
            + T("PipelineProofs", "C13_arity C13_scope"),
